@@ -8,6 +8,7 @@ the same dict is the replay input.  For each case
     Fraction arithmetic, written from the property text (not from the Lean model).
 """
 import ast
+import bisect
 import hashlib
 import inspect
 import math
@@ -18,9 +19,10 @@ from harness import nswire
 from harness.common import rat, wl, lean_list, lean_str, corpus_cases
 
 PID = 'C13'
-MODULES = ['NoteSeqVerif.Props.C13', 'NoteSeqVerif.Props.C13_repeat', 'NoteSeqVerif.Props.C13_interp']
+MODULES = ['NoteSeqVerif.Props.C13', 'NoteSeqVerif.Props.C13_repeat', 'NoteSeqVerif.Props.C13_interp',
+           'NoteSeqVerif.Props.C13_adjust']
 EXE = 'drv_c13'
-_P, _PR, _PI = MODULES
+_P, _PR, _PI, _PA = MODULES
 THEOREMS = [(_P, 'NSV.C13.' + t) for t in (
     'shift_spec shift_error_iff stretch_spec stretch_one stretch_error_iff '
     'remove_redundant_in_effect remove_redundant_drops_only_repeats remove_redundant_frame dedup_keeps_first '
@@ -38,7 +40,12 @@ THEOREMS = [(_P, 'NSV.C13.' + t) for t in (
     # Props/C13_interp.lean: float np.interp for every Rounding R; exact cross-knot monotonicity refuted for rne53
     (_PI, 'NSV.C13.' + t) for t in (
     'interp_monotone_within_segment interp_ge_knot interp_range_float interp_monotone_approx '
-    'interp_not_monotone_rne53 interp_monotone_fails_for_some_rounding rectify_raises_on_increasing_beats').split()]
+    'interp_not_monotone_rne53 interp_monotone_fails_for_some_rounding rectify_raises_on_increasing_beats').split()] + [
+    # Props/C13_adjust.lean: exactly which notes adjust / rectify keep (kept iff f start != f end, exact equality at
+    # every magnitude; raises iff a note is reversed or a kept time is negative), for every time map and rounding
+    (_PA, 'NSV.C13.' + t) for t in (
+    'adjust_keeps_exactly adjust_raises_iff adjust_raises_iff_reversed adjust_min_duration_keeps_all '
+    'rectify_keeps_exactly rectify_raises_iff').split()]
 
 EV = ['time_signatures', 'key_signatures', 'tempos', 'pitch_bends', 'control_changes',
       'text_annotations', 'section_annotations']
@@ -583,6 +590,12 @@ def o_adjust(sl, case):
 
 
 def o_rectify(sl, case):
+    """the beat map M is the piecewise-linear interpolation through (0, the distinct beats <= total_time, total_time)
+    -> k*60/bpm; "as the code computes it" = numpy's own np.interp on knots built HERE from the property text.
+    Demanded exactly (no tolerance, at every magnitude): a note is dropped iff M(start) == M(end); the call raises
+    InvalidTimeAdjustmentError iff M(end) < M(start) for some note; every kept note and every event sits at M(time).
+    M itself is held to the exact rational interpolation (1e-9 relative; beats exactly on the grid)."""
+    import numpy as np
     ns, bpm = from_hex(case['seqs'][0]), case['bpm']
     before = to_hex(ns)
     res, err = call(sl.rectify_beats, ns, bpm)
@@ -595,66 +608,71 @@ def o_rectify(sl, case):
         return expect_err(err, {'RectifyBeatsError'})
     if bpm <= 0 or any(t < 0 for t in all_times(ns)):
         return None      # outside the quantifier
-    knots = sorted(set(beats) | {0.0, ns.total_time})
+    tt = ns.total_time
+    if any(n.start_time > tt or n.end_time > tt for n in ns.notes):
+        return None      # outside the quantifier (a well-formed sequence ends at or after its last note)
+    knots = sorted(set(beats) | {0.0, tt})
     spb = 60.0 / bpm
     targ = [spb * k for k in range(len(knots))]
-    # a time after total_time is clamped to the *old* total_time by the map rectify_beats builds; if that
-    # lies before a mapped note start the code rejects its own map.  Only times within [0,total_time] are judged.
-    inside = all(t <= ns.total_time for t in all_times(ns))
-    if err is not None:
-        return 'unexpected %s' % type(err).__name__ if inside else None
-    out, al = res
-    if [tuple(map(float, r)) for r in al] != list(zip(knots, targ)):
-        return 'alignment rows are not (beat k, k*60/bpm)'
+    fk, ft = [F(x) for x in knots], [F(y) for y in targ]
+
+    def M(t):
+        return float(np.interp(t, knots, targ))
 
     def exact(t):
         t = F(t)
-        for i in range(len(knots) - 1):
-            if F(knots[i]) <= t <= F(knots[i + 1]):
-                return F(targ[i]) + (t - F(knots[i])) * (F(targ[i + 1]) - F(targ[i])) / (F(knots[i + 1]) - F(knots[i]))
-        return F(targ[-1]) if t == F(knots[-1]) else None
+        i = max(0, min(bisect.bisect_right(fk, t) - 1, len(fk) - 2)) if len(fk) > 1 else 0
+        if len(fk) == 1:
+            return ft[0]
+        return ft[i] + (t - fk[i]) * (ft[i + 1] - ft[i]) / (fk[i + 1] - fk[i])
 
-    def close(t, got):
-        if t > ns.total_time:
-            return True
-        if t in knots:
-            return got == targ[knots.index(t)]          # beats land exactly on the grid
-        e = exact(t)
-        return abs(F(got) - e) <= F(1, 10**9) * (1 + abs(e))
-    kept = []
+    # a time after total_time is clamped to the *old* total_time by the map rectify_beats builds: only times
+    # within [0,total_time] are judged (notes always are; events may lie later)
+    judged = [t for t in set(all_times(ns)) if t <= tt]
+    for t in judged:
+        m, e = M(t), exact(t)
+        if (t in knots and m != targ[knots.index(t)]) or abs(F(m) - e) > F(1, 10**9) * (1 + abs(e)):
+            return 'the float beat map sends %r to %r, the interpolation through the beats gives %r' % (t, m, float(e))
+    kept, reversed_ = [], None
     for n in ns.notes:
-        if not (n.start_time in knots and n.end_time in knots and n.start_time == n.end_time):
-            kept.append(n)
-    # notes: kept in order, only notes collapsed to zero length may go
-    it = iter(out.notes)
-    pairs = []
-    outn = list(out.notes)
-    j = 0
-    for n in ns.notes:
-        if j < len(outn) and (outn[j].pitch, outn[j].velocity, outn[j].voice, outn[j].instrument) == (n.pitch, n.velocity, n.voice, n.instrument) \
-                and close(n.start_time, outn[j].start_time) and close(n.end_time, outn[j].end_time):
-            pairs.append((n, outn[j]))
-            j += 1
-        else:
-            e0, e1 = exact(n.start_time), exact(n.end_time)
-            if e0 is None or e1 is None or abs(e1 - e0) > F(1, 10**9) * (1 + abs(e0)):
-                return 'note %r-%r dropped or moved off the interpolated beat map' % (n.start_time, n.end_time)
-    if j != len(outn):
-        return 'a note appeared that is no image of an input note'
+        a, b = M(n.start_time), M(n.end_time)
+        if a == b:
+            continue                      # collapsed to zero length: the only notes that may go
+        if b < a and reversed_ is None:
+            reversed_ = n
+        kept.append((n, a, b))
+    if reversed_ is not None:
+        # the map as computed in floats reverses a note (possible for a 1-ulp note next to a beat, see meta level_note)
+        return expect_err(err, {'InvalidTimeAdjustmentError'})
+    if err is not None:
+        return 'unexpected %s (the beat map reverses no note and makes no time negative)' % type(err).__name__
+    out, al = res
+    if [tuple(map(float, r)) for r in al] != list(zip(knots, targ)):
+        return 'alignment rows are not (beat k, k*60/bpm)'
+    if len(out.notes) != len(kept):
+        gone = [(n.start_time, n.end_time) for n in ns.notes if M(n.start_time) != M(n.end_time)]
+        return '%d notes have distinct mapped ends (must be kept), %d notes returned; input notes with non-zero mapped length: %s' % (
+            len(kept), len(out.notes), gone[:6])
+    exp = clone(ns)
+    del exp.notes[:]
+    for n, a, b in kept:
+        m = exp.notes.add()
+        m.CopyFrom(n)
+        m.start_time, m.end_time = a, b
     for k in EV:
         if k in ('tempos', 'time_signatures'):
             continue
-        a, b = list(getattr(ns, k)), list(getattr(out, k))
-        if len(a) != len(b) or any(not close(x.time, y.time) for x, y in zip(a, b)):
-            return '%s not moved by the beat map' % k
-    mapped = sorted([(n.start_time, o.start_time) for n, o in pairs] + [(n.end_time, o.end_time) for n, o in pairs])
-    if any(a[1] > b[1] for a, b in zip(mapped, mapped[1:]) if b[0] <= ns.total_time):
-        return 'beat map applied non-monotonically'
-    if len(out.tempos) != 1 or out.tempos[0].qpm != bpm or out.tempos[0].time != 0 or len(out.time_signatures):
-        return 'result must carry exactly one tempo (bpm) and no time signatures'
-    if out.total_time != max([o.end_time for o in out.notes] + [0.0]):
-        return 'total_time is not the last note end'
-    return None
+        a, b = getattr(exp, k), getattr(out, k)
+        if len(a) != len(b):
+            return '%s: %d events in, %d out' % (k, len(a), len(b))
+        for x, y in zip(a, b):
+            x.time = M(x.time) if x.time <= tt else y.time
+    del exp.tempos[:]
+    del exp.time_signatures[:]
+    exp.tempos.add(qpm=bpm)
+    exp.total_time = max([b for _, _, b in kept] + [0.0])
+    r = first_diff(exp, out)
+    return 'rectify: %s' % r if r else None
 
 
 def note_key(n, a, b):
@@ -791,6 +809,79 @@ def pos_double(rng):
     return math.ldexp(rng.random() + 0.5, rng.randrange(-30, 30))
 
 
+def logu(rng, lo, hi):
+    return math.exp(rng.uniform(math.log(lo), math.log(hi)))
+
+
+def set_times(ns, g):
+    for n in ns.notes:
+        n.start_time, n.end_time = g(n.start_time), g(n.end_time)
+    for k in EV:
+        for e in getattr(ns, k):
+            e.time = g(e.time)
+    ns.total_time = g(ns.total_time)
+
+
+def retime(rng, ns):
+    """magnitude diversity: an ORDER-PRESERVING re-timing of every time of `ns` (note starts/ends, all event
+    containers, total_time), so start <= end and every coincidence survive, but the distinct times are laid out again
+    over a long piece (up to 10^4 s) with gaps of very different sizes: 1e-4..1e-2 s (grace notes), 1e-7..1e-4 s,
+    1..8 ulps, ordinary (0.05..2 s) and long rests.  Returns the scale."""
+    times = sorted(set(all_times(ns) + [ns.total_time]))
+    if not times or times[0] < 0:
+        return None
+    S = rng.choice([1.0, 30.0, 300.0, 3000.0, 1e4, logu(rng, 10, 1e4)])
+    if times[0] == 0.0 and rng.random() < 0.6:
+        cur = 0.0
+    else:
+        cur = rng.choice([0.0, S, round(S * rng.random(), 3), S * rng.random()])
+    new = {}
+    for i, t in enumerate(times):
+        if i > 0:
+            k = rng.random()
+            if k < 0.30:
+                nxt = cur + logu(rng, 1e-4, 1e-2)
+                if rng.random() < 0.5:
+                    nxt = round(nxt, rng.choice([3, 4, 6]))       # decimal times as in a transcription: 300.002
+            elif k < 0.38:
+                nxt = cur + logu(rng, 1e-7, 1e-4)
+            elif k < 0.50 and cur > 1e-3:
+                nxt = nswire.nextafter_n(cur, rng.choice([1, 1, 2, 3, 8]))
+            elif k < 0.80:
+                nxt = cur + rng.choice([0.125, 0.5, rng.uniform(0.05, 2.0)])
+            else:
+                nxt = cur + rng.choice([S, rng.uniform(0, 2 * S / len(times)), round(rng.uniform(0, S), 1)])
+            cur = nxt if nxt > cur else nswire.nextafter_n(cur, 1) if cur > 1e-3 else cur + 1e-4
+        new[t] = cur
+    set_times(ns, lambda t: new[t])
+    return S
+
+
+def note_classes(ns, f):
+    """coverage labels: what the map does to the notes (both sides of the collapse boundary)"""
+    out = set()
+    for n in ns.notes:
+        try:
+            a, b = f(n.start_time), f(n.end_time)
+        except Exception:  # pylint: disable=broad-except
+            continue
+        d0 = n.end_time - n.start_time
+        if d0 == 0:
+            out.add('note:zero-length-input')
+        if a == b and d0 > 0:
+            out.add('note:collapsed-by-map' + ('(short)' if d0 <= 0.011 else ''))
+        elif b > a:
+            if d0 <= 0.011:
+                out.add('note:short-input-kept(t>=100)' if n.start_time >= 100 else 'note:short-input-kept')
+            if b - a < 1e-6:
+                out.add('note:shrunk-below-1e-6-kept')
+            if b - a <= 1e-8 + 1e-5 * abs(b):
+                out.add('note:kept-though-isclose')
+        elif b < a:
+            out.add('note:reversed')
+    return sorted(out)
+
+
 def add_state_events(rng, ns, pool):
     """extra tempos / signatures from small value pools so that values repeat across times and pieces"""
     for _ in range(rng.choice([0, 0, 1, 2, 4])):
@@ -821,7 +912,7 @@ def fill_group(rng, g, ids, depth):
             s.section_id = rng.choice(ids)
 
 
-def gen_piece(rng, max_notes=8, quant=0.04, empty=0.06, meta=True, state=True):
+def gen_piece(rng, max_notes=8, quant=0.04, empty=0.06, meta=True, state=True, mag=0.3):
     g = nswire.NSGen(rng, max_notes=max_notes)
     if rng.random() < empty:
         ns = NS() if rng.random() < 0.5 else g.make(notes=False, sub=True)
@@ -831,6 +922,8 @@ def gen_piece(rng, max_notes=8, quant=0.04, empty=0.06, meta=True, state=True):
     ns = g.make(sub=True)
     if state and rng.random() < 0.5:
         add_state_events(rng, ns, g.pool)
+    if rng.random() < mag:
+        retime(rng, ns)
     if meta and rng.random() < 0.4:
         for _ in range(rng.randrange(0, 4)):
             ns.sequence_metadata.composers.append(rng.choice(['Bach', 'Bartók', 'x', '']))
@@ -935,29 +1028,96 @@ def gen_map(rng, tmax):
     return {'kind': 'rev', 'c': rng.choice([tmax, tmax + 1, 100.0, 0.0])}, 'map:reversing'
 
 
+def gen_map_mag(rng, ns):
+    """time maps for the collapse boundary at every magnitude: slopes 1e-3..1e3 (and ~0: flat / 1e-9), knots on, next
+    to (ulps, 1e-5..1e-2 s) and inside the notes, so that a map (a) genuinely collapses a short note (flat segment,
+    grid cell, float absorption), (b) shrinks it to a tiny but non-zero length, (c) leaves it alone late in a long piece"""
+    ts = sorted(set(all_times(ns))) or [0.0]
+    tmax = max(ts + [1.0])
+    shorts = [(n.start_time, n.end_time) for n in ns.notes if 0 < n.end_time - n.start_time <= 0.011]
+    k = rng.random()
+    if k < 0.25:
+        a = rng.choice([1e-3, 1e3, 2.0 ** -10, 2.0 ** 10, 1.0, logu(rng, 1e-3, 1e3), logu(rng, 1e-3, 1e3)])
+        b = rng.choice([0.0, 0.0, rng.random(), 1e3, logu(rng, 1e-3, 1e4)])
+        return {'kind': 'lin', 'a': a, 'b': b}, 'map:linear-slope-%s' % ('>=1' if a >= 1 else '<1')
+    if k < 0.85:
+        cand = {0.0}
+        for t in rng.sample(ts, min(len(ts), rng.choice([1, 2, 3, 5]))):
+            j = rng.random()
+            cand.add(t if j < 0.5 else ulps(rng, t, 2) if (j < 0.7 and t > 1e-3) else max(0.0, t + rng.choice([-1, 1]) * logu(rng, 1e-5, 1e-2)))
+        if shorts and rng.random() < 0.75:
+            a, b = rng.choice(shorts)
+            m = rng.random()
+            if m < 0.35:
+                cand |= {a, b}                                   # one segment is exactly the short note
+            elif m < 0.7:
+                e = rng.choice([logu(rng, 1e-4, 1e-2), b - a])
+                cand |= {max(0.0, a - e), b + e}                 # the short note strictly inside one segment
+            else:
+                cand.add(a + (b - a) / 2)                        # a knot inside the short note
+        cand.add(tmax + rng.choice([0.0, 1.0, 1e-3]))
+        xs = sorted(cand)
+        if len(xs) < 2:
+            xs.append(xs[-1] + 1.0)
+        ys, y = [], rng.choice([0.0, 0.0, 0.5, 100.0])
+        for i in range(len(xs)):
+            ys.append(y)
+            if i + 1 < len(xs):
+                dx = xs[i + 1] - xs[i]
+                j = rng.random()
+                slope = 0.0 if j < 0.3 else logu(rng, 1e-9, 1e-3) if j < 0.45 else logu(rng, 1e-3, 1e3) if j < 0.85 else 1.0
+                y = y + slope * dx
+        return {'kind': rng.choice(['pl', 'npinterp', 'npinterp']), 'xs': xs, 'ys': ys}, 'map:piecewise-linear-slopes-1e-9..1e3'
+    if k < 0.93:
+        return {'kind': 'step', 'g': rng.choice([1e-3, 1e-2, 0.1, 1.0, 100.0])}, 'map:step'
+    if k < 0.97:
+        return {'kind': 'rev', 'c': rng.choice([tmax, tmax + 1, 2e4])}, 'map:reversing'
+    return {'kind': 'lin', 'a': rng.choice([1.0, 1e-3]), 'b': -rng.choice([1e-3, 0.5, tmax / 2])}, 'map:negative-somewhere'
+
+
 def case_adjust(rng):
-    ns = gen_piece(rng, quant=0.03, empty=0.03)
+    mag = rng.random() < 0.5
+    ns = gen_piece(rng, quant=0.03, empty=0.03, mag=1.0 if mag else 0.0)
     tmax = max(all_times(ns) + [1.0])
-    spec, h = gen_map(rng, tmax)
-    md = rng.choice([None, None, None, 0.0, 0.25, 0.01, -0.5])
-    return {'op': 'adjust', 'seqs': [to_hex(ns)], 'map': spec, 'md': md}, [h, 'min_duration:' + ('none' if not md else 'set')]
+    spec, h = gen_map_mag(rng, ns) if (mag and rng.random() < 0.85) or rng.random() < 0.15 else gen_map(rng, tmax)
+    md = rng.choice([None, None, None, None, 0.0, 0.25, 0.01, 1e-4, -0.5])
+    hist = [h, 'min_duration:' + ('none' if not md else 'set'), 'times:' + ('long-piece-short-notes' if mag else 'plain')]
+    if not md:
+        hist += note_classes(ns, build_map(spec))
+    return {'op': 'adjust', 'seqs': [to_hex(ns)], 'map': spec, 'md': md}, hist
 
 
 def case_rectify(rng):
     g = nswire.NSGen(rng, max_notes=8)
     ns = g.make(sub=True, texts=rng.random() < 0.3)
+    mag = rng.random() < 0.5
+    if mag:
+        retime(rng, ns)
     k = rng.random()
-    hist = []
+    force_bpm = None
+    hist = ['times:' + ('long-piece-short-notes' if mag else 'plain')]
+    pool = sorted(set(all_times(ns))) if mag else g.pool
     if k < 0.9:
         tt = ns.total_time
         nb = rng.choice([1, 2, 3, 5, 9])
         mode = rng.random()
         ts = []
-        if mode < 0.4:        # roughly regular beats with jitter
+        if mode < 0.35:        # roughly regular beats with jitter
+            if mag and rng.random() < 0.5:
+                nb = rng.choice([20, 60, 150, 640])
             step = max(tt, 0.5) / nb
             ts = [max(0.0, i * step + rng.choice([0.0, rng.uniform(-0.2, 0.2) * step])) for i in range(nb + 1)]
-        elif mode < 0.8:      # beats on times used by notes/events (coincidences), incl. 0 and total_time
-            ts = [rng.choice(g.pool + [tt]) for _ in range(nb)]
+        elif mode < 0.6:      # beats on times used by notes/events (coincidences), incl. 0 and total_time
+            ts = [rng.choice(pool + [tt]) for _ in range(nb)]
+        elif mode < 0.8:      # beats next to times used by notes/events: ulps away, or 1e-5..1e-2 s away
+            for _ in range(nb):
+                t = rng.choice(pool + [tt])
+                j = rng.random()
+                ts.append(t if j < 0.3 else ulps(rng, t, 2) if (j < 0.65 and t > 1e-3) else max(0.0, t + rng.choice([-1, 1]) * logu(rng, 1e-5, 1e-2)))
+            shorts = [(n.start_time, n.end_time) for n in ns.notes if 0 < n.end_time - n.start_time <= 0.011]
+            if shorts and rng.random() < 0.6:
+                a, b = rng.choice(shorts)
+                ts += rng.choice([[a, b], [a + (b - a) / 2], [a], [b]])
         else:
             ts = [rng.uniform(0, tt + 1) for _ in range(nb)]
         if rng.random() < 0.3 and ts:
@@ -969,8 +1129,33 @@ def case_rectify(rng):
             x = ns.text_annotations.add()
             x.time, x.annotation_type = t, 2
         hist.append('beats:%s' % ('some' if any(t <= tt for t in ts) else 'all-after-end'))
+        hist.append('beats:%s' % ('<=10' if len(ts) <= 10 else '>10'))
     else:
         hist.append('beats:none')
+    if rng.random() < 0.05 and ns.total_time >= 1.0:
+        # float np.interp is not exactly monotone across a knot (interp_not_monotone_rne53): the only interior beat x0 at an
+        # odd multiple of half an ulp of total_time with total_time - x0 in total_time's binade (x1 - x0 and pred(x1) - x0 are
+        # both ties), and a 1..2-ulp note ending on the last knot -> the float map may reverse the note -> the code rejects it
+        tt = ns.total_time
+        for i in reversed(range(len(ns.text_annotations))):
+            if ns.text_annotations[i].annotation_type == 2:
+                del ns.text_annotations[i]
+        h = math.ulp(tt) / 2
+        maxj = int((tt - 2.0 ** math.floor(math.log2(tt))) / h) // 2
+        j = rng.choice([0, 0, 1, rng.randrange(0, maxj + 1)]) if maxj >= 1 else 0
+        x = ns.text_annotations.add()
+        x.time, x.annotation_type = (2 * j + 1) * h, 2
+        n = ns.notes.add()
+        n.pitch, n.velocity = 60, 90
+        n.start_time, n.end_time = nswire.nextafter_n(tt, -rng.choice([1, 1, 2])), tt
+        hist = [h_ for h_ in hist if not h_.startswith('beats:')] + ['beats:half-ulp-beat+1ulp-note-on-last-knot']
+        import numpy as np
+        for _ in range(80):           # look for a tempo at which numpy's float interpolation really reverses the note
+            force_bpm = rng.uniform(20, 300)
+            spb = 60.0 / force_bpm
+            if np.interp(n.start_time, [0.0, x.time, tt], [0.0, spb, spb * 2]) > spb * 2:
+                hist.append('beats:float-map-reverses-a-1ulp-note')
+                break
     if rng.random() < 0.6:            # keep events inside [0,total_time] (where the beat map is an interpolation)
         for kk in EV:
             for e in getattr(ns, kk):
@@ -978,7 +1163,9 @@ def case_rectify(rng):
                     e.time = ns.total_time
     if rng.random() < 0.04:
         ns.quantization_info.steps_per_quarter = 4
-    bpm = rng.choice([120, 60, 100.0, 90.5, 30, rng.uniform(20, 300)]) if rng.random() < 0.96 else rng.choice([0, -60.0])
+    bpm = rng.choice([120, 60, 100.0, 90.5, 30, rng.uniform(20, 300), logu(rng, 1, 6000)]) if rng.random() < 0.96 else rng.choice([0, -60.0])
+    if force_bpm is not None:
+        bpm = force_bpm
     return {'op': 'rectify', 'seqs': [to_hex(ns)], 'bpm': bpm}, hist
 
 
@@ -1082,6 +1269,14 @@ def run(chk):
                 'too-short/wrong-length durations; linear, piecewise-linear (flat segments), step, constant, negative and reversing '
                 'time maps with and without minimum_duration; beat lists (jittered, on event times, duplicated, after the end, none) '
                 'x bpm; np.interp knots +- ulps; repeat targets at, next to and between multiples; section-group forests. '
+                'Magnitude diversity (30% of shift/stretch/concatenate/repeat pieces, 50% of adjust/rectify): an order-preserving '
+                're-timing lays the distinct times out over pieces up to 10^4 s long with gaps of 1..8 ulps, 1e-7..1e-4 s, '
+                '1e-4..1e-2 s (grace notes, decimal times like 300.002), ordinary and long rests; time maps with slopes 1e-3..1e3 '
+                '(linear; piecewise-linear / np.interp with knots on, ulps or 1e-5..1e-2 s next to, around and inside the short '
+                'notes; flat and 1e-9-slope segments; grids 1e-3..100) so that short notes are genuinely collapsed, shrunk to a '
+                'tiny non-zero length, or left alone late in a long piece; beats on / ulps next to / inside short notes, up to 640 '
+                'beats, bpm 1..6000.  The adjust and rectify oracles demand with exact float equality: dropped iff mapped start == '
+                'mapped end, raises iff mapped end < mapped start (or a negative time). '
                 'non-trivial = distinct request answered by the model with a value or a Python exception name')
     shown = set()
 
